@@ -313,11 +313,17 @@ class MultipartEncoder:
             self.state = State.DATA_START
             return data
         elif isinstance(event, Data) and self.state == State.DATA_START:
-            self.state = State.DATA
             if len(event.data) > 0:
+                self.state = State.DATA
                 return b"\r\n" + event.data
-            else:
-                return event.data
+
+            # The line break that starts the body is written with the first
+            # non-empty data; for an empty part it is the one of the next
+            # delimiter.
+            if not event.more_data:
+                self.state = State.DATA
+
+            return event.data
         elif isinstance(event, Data) and self.state == State.DATA:
             return event.data
         elif isinstance(event, Epilogue):
